@@ -295,3 +295,67 @@ Proof.
   split; [exact FreeExamples.move_prog_is_data_movement|].
   split; [exact FreeExamples.and_prog_rejected|exact FreeExamples.idx_prog_rejected].
 Qed.
+Print Assumptions C15_data_movement_examples.
+
+(* ---- the structure theorems above for COMPILED circuits (Compile/LowerReach.v): the final
+   builder of the model of compile.rs is [reachable], so the hypotheses [reachable b hs],
+   [valids b pw], [valids b outs] of C15_const_gates ... C15_and_unique are THEOREMS about every
+   circuit the compiler model returns, for every program, fuel and de-duplication flag. *)
+From GV Require Import Panic.PanicRec Compile.LowerReach.
+
+Theorem C15_compiled_builder_reachable : forall fuel dedup P s outs,
+  lower_main_with fuel dedup P = Ok (PreOk s outs) ->
+  exists hs,
+    reachable (cb s) hs /\ b_dedup (cb s) = dedup /\
+    Forall (nm (cb s) hs) (prec_wires (ps_rec (cp s)) ++ outs) /\
+    valids (cb s) (prec_wires (ps_rec (cp s))) /\ valids (cb s) outs.
+Proof. exact compiled_builder_reachable. Qed.
+Print Assumptions C15_compiled_builder_reachable.
+
+Theorem C15_compiled_build_total : forall fuel dedup P s outs,
+  lower_main_with fuel dedup P = Ok (PreOk s outs) ->
+  exists c, lower_program_with fuel dedup P = Ok (LCircuit c).
+Proof. exact compiled_build_total. Qed.
+Print Assumptions C15_compiled_build_total.
+
+Theorem C15_compiled_const_gates : forall fuel dedup P c,
+  lower_program_with fuel dedup P = Ok (LCircuit c) ->
+  nthN (gates c) 0 = Some (GXor 0 0) /\ nthN (gates c) 1 = Some (GNot (num_inputs c)).
+Proof. exact compiled_const_gates. Qed.
+Print Assumptions C15_compiled_const_gates.
+
+Theorem C15_compiled_all_used : forall fuel dedup P c,
+  lower_program_with fuel dedup P = Ok (LCircuit c) ->
+  forall k, 2 <= k < lenN (gates c) -> reaches c (num_inputs c + k).
+Proof. exact compiled_all_used. Qed.
+Print Assumptions C15_compiled_all_used.
+
+Theorem C15_compiled_no_constant_operand : forall fuel dedup P c,
+  lower_program_with fuel dedup P = Ok (LCircuit c) ->
+  forall k g w, 2 <= k -> nthN (gates c) k = Some g -> In w (g_ops g) ->
+    w <> num_inputs c /\ w <> num_inputs c + 1.
+Proof. exact compiled_no_constant_operand. Qed.
+Print Assumptions C15_compiled_no_constant_operand.
+
+Theorem C15_compiled_no_self_operand : forall fuel dedup P c,
+  lower_program_with fuel dedup P = Ok (LCircuit c) ->
+  (forall k x y, nthN (gates c) k = Some (GAnd x y) -> x <> y) /\
+  (dedup = true -> forall k x y, 2 <= k -> nthN (gates c) k = Some (GXor x y) -> x <> y).
+Proof. exact compiled_no_self_operand. Qed.
+Print Assumptions C15_compiled_no_self_operand.
+
+Theorem C15_compiled_and_unique : forall fuel dedup P c,
+  lower_program_with fuel dedup P = Ok (LCircuit c) ->
+  dedup = true ->
+  forall k1 k2 x y x' y',
+    nthN (gates c) k1 = Some (GAnd x y) -> nthN (gates c) k2 = Some (GAnd x' y') ->
+    same_pair x y x' y' -> k1 = k2.
+Proof. exact compiled_and_unique. Qed.
+Print Assumptions C15_compiled_and_unique.
+
+(* non-vacuity: a program with comparator, adder, divider, bitwise AND, if-muxes and panics
+   compiles (553 gates / 225 AND with de-duplication, 641 / 262 without) *)
+Theorem C15_compiled_example :
+  ReachExamples.summary (lower_program_with 50 true ReachExamples.arith_prog) <> None /\
+  ReachExamples.summary (lower_program_with 50 false ReachExamples.arith_prog) <> None.
+Proof. exact ReachExamples.arith_prog_compiles. Qed.
